@@ -74,14 +74,15 @@ theorem cl_lockPrelude (h k : Nat) : ∀ (fuel : Nat) (a : Api) (limit : Limit) 
       · exact hstep
       · split
         · exact cl_dropAll hc _ _ hstep
-        · rename_i cands _ _ _
-          have hp2 := cl_runActs hc cands { a with s := (step a.s (.limitLookup h k n (List.range' h0 supplyLen))).1 }
+        · exact hstep
+        · exact hstep
+        · have hp2 := fun cands => cl_runActs hc cands { a with s := (step a.s (.limitLookup h k n (List.range' h0 supplyLen))).1 }
             (script.head?.getD defaultRound).acts hstep
           split
-          · exact hp2
+          · exact hp2 _
           · split
-            · exact hp2
-            · exact ih _ _ _ _ hp2
+            · exact hp2 _
+            · exact ih _ _ _ _ (hp2 _)
       · exact hstep
 
 theorem cl_lock (a : Api) (v : Variant) (h k : Nat) (limit : Limit) (h0 : Nat) (hp : P a.s) :
@@ -122,13 +123,44 @@ theorem cl_spollLoop (sid : Nat) : ∀ (fuel : Nat) (a : Api), P a.s → P (a.sp
         · apply ih; exact hip
         · exact hip
 
+theorem cl_resume (a : Api) (h : Nat) (su : Susp) (hp : P a.s) : P (a.resume h su).1.s := by
+  unfold Api.resume
+  simp only []
+  have hp2 := cl_runActs hc (su.cands.map Prod.fst) { a with susp := a.susp.filter fun (i, _) => i ≠ h }
+    (su.script.head?.getD defaultRound).acts hp
+  split
+  · exact hp2
+  · exact hp2
+  · exact hp2
+  · exact cl_lock hc _ su.v h su.k _ su.h0 hp2
+
+theorem cl_abandon (a : Api) (h : Nat) (su : Susp) (hp : P a.s) : P (a.abandon h su).s := by
+  unfold Api.abandon
+  exact cl_dropAll hc _ _ hp
+
 theorem cl_exec (a : Api) (c : Call) (hp : P a.s) : P (a.exec c).1.s := by
   cases c with
   | lock v h k limit h0 => exact cl_lock hc a v h k limit h0 hp
-  | poll h => exact cl_acquire hc a.s h hp
-  | cancel h => exact cl_cancelHandle hc a h hp
-  | op h g => exact cl_gop hc a.s h g hp
-  | drop h => exact cl_dropGuard hc a h hp
+  | poll h =>
+    simp only [Api.exec]
+    split
+    · exact cl_resume hc a h _ hp
+    · exact cl_acquire hc a.s h hp
+  | cancel h =>
+    simp only [Api.exec]
+    split
+    · exact cl_abandon hc a h _ hp
+    · exact cl_cancelHandle hc a h hp
+  | op h g =>
+    simp only [Api.exec]
+    split
+    · exact hp
+    · exact cl_gop hc a.s h g hp
+  | drop h =>
+    simp only [Api.exec]
+    split
+    · exact hp
+    · exact cl_dropGuard hc a h hp
   | count => exact hp
   | keys => exact hp
   | adv d => exact cl_tick hc a.s d hp
